@@ -48,10 +48,16 @@ def main():
     ap.add_argument('--only', default='')
     ap.add_argument('--props', default='')
     ap.add_argument('-j', type=int, default=8)
+    ap.add_argument('-v', action='store_true')
+    ap.add_argument('--negatives', action='store_true', help='run the behaviour-preserving corpus: nothing may fire')
     ap.add_argument('--all-props', action='store_true', help='also run every claimed property to look for collateral alarms')
     a = ap.parse_args()
     import corpus
     importlib.reload(corpus)
+    if a.negatives:
+        import negatives
+        corpus.MUTANTS = negatives.NEGATIVES
+        a.all_props = True
     claimed = sorted(f[:-3].upper() for f in os.listdir(os.path.join(VERIF, 'analysis', 'rules')) if f.startswith('c') and f[1:3].isdigit())
     jobs = []
     for m in corpus.MUTANTS:
@@ -92,7 +98,13 @@ def main():
         for prop, r in res.items():
             if prop not in expected_props and (r['violations'] or r['engine_errors']):
                 line.append('collateral %s: %s' % (prop, (r['violations'] + r['engine_errors'])[:2]))
-        print('%-40s %s' % (name, '; '.join(line)))
+        if a.negatives and line:
+            ok = False
+        if a.v:
+            for prop, r in res.items():
+                for k, d in r.get('details', {}).items():
+                    print('      %s: %s' % (k, d[:400]))
+        print('%-40s %s' % (name, '; '.join(line) if line else ('silent' if a.negatives else '')))
     return 0 if ok else 1
 
 
